@@ -1591,7 +1591,8 @@ def m_map_remove(interp, path, args, ret_ty, callee):
 def m_map_new(interp, path, args, ret_ty, callee):
     if args:
         raise Refuse("new::<..> with arguments")
-    return StructV("SymMap<empty>", [])
+    n = getattr(interp, "fresh_capacity", 0)
+    return StructV("SymMap<empty>", [StructV("Slot", [UndefV(), UnitV(), BoolV(False)]) for _ in range(n)])
 
 
 @model(r"^(BTreeSet|IndexSet|HashSet)::<.*>::new$", "empty set with the job's bound of free slots")
@@ -1742,6 +1743,52 @@ def m_iter_max_by(interp, path, args, ret_ty, callee):
                 for p2, tag in interp.fork(o.path, [(greater, "keep"), (z3.Not(greater), "take")]):
                     work.append((p2, i + 1, x if tag == "keep" else y))
     return outs
+
+
+@model(r"^<(set::|btree_set::|hash_set::)?Iter<.*> as Iterator>::filter::<.*>$", "lazy filter over a borrowing set iterator")
+def m_setiter_filter(interp, path, args, ret_ty, callee):
+    if args[0].kind != "struct" or args[0].ty != "SetRefIter":
+        raise Refuse("filter over %r" % (args[0],))
+    return StructV("SetRefFilter", [args[0], args[1]])
+
+
+@model(r"^<Filter<(set::|btree_set::|hash_set::)?Iter<.*>, .*> as Iterator>::cloned::<.*>$", "lazy cloned adaptor")
+def m_setfilter_cloned(interp, path, args, ret_ty, callee):
+    return args[0]
+
+
+@model(r"^<Cloned<Filter<(set::|btree_set::|hash_set::)?Iter<.*>, .*>> as Iterator>::collect::<(IndexSet|BTreeSet|HashSet)<.*>>$",
+       "the kept elements as a set whose membership flags are the predicate's (symbolic) verdicts")
+def m_setfilter_collect(interp, path, args, ret_ty, callee):
+    from .interp import _ConstRef
+    it = args[0]
+    if it.kind != "struct" or it.ty != "SetRefFilter":
+        raise Refuse("collect over %r" % (it,))
+    elems, clo = it.fields[0].fields, it.fields[1]
+    p = path
+    slots = []
+    for e in elems:
+        # the predicate of Iterator::filter takes &&T
+        outs = _apply_fn(interp, p, clo, [_ConstRef("&&" + e.ty, _ConstRef("&" + e.ty, e))])
+        outs = [o for o in outs if o.kind != "unwind"]
+        if len(outs) != 1 or outs[0].kind != "ret":
+            raise Refuse("filter predicate forks or fails")
+        p = outs[0].path
+        slots.append(StructV("Slot", [e, UnitV(), BoolV(outs[0].value.term)]))
+    return [Outcome(p, "ret", StructV("SymMap<filtered set>", slots))]
+
+
+@model(r"^<(IndexSet|BTreeSet|HashSet)<.*> as IntoIterator>::into_iter$", "consuming iterator over an entry-list set")
+def m_set_into_iter(interp, path, args, ret_ty, callee):
+    v = args[0]
+    if not _is_entry_set(v):
+        raise Refuse("into_iter of %r" % (v,))
+    return StructV("VecIntoIter", list(v.fields))
+
+
+@model(r"^<(set::|btree_set::|hash_set::)IntoIter<.*> as Iterator>::next$", "next element by value")
+def m_set_into_iter_next(interp, path, args, ret_ty, callee):
+    return m_intoiter_next(interp, path, args, ret_ty, callee)
 
 
 @model(r"^<(FilterMap|Map)<.*> as Iterator>::collect::<Vec<.*>$", "evaluate the adaptor chain in order into a vector")
